@@ -375,6 +375,11 @@ def discharge(site, facts=None):
             elif pi.adt == "std::ops::RangeFrom":
                 start = pi.args[0]
             ok_end = end is None or known_ge(body, bb, lenc, end)
+            if not ok_end and facts is not None:
+                # the bound is what a small pure helper computes (`clamp_pending(owed, o.len())` = `owed.min(len)`)
+                end2 = expand_local_call(facts, end)
+                if end2 is not end and known_ge(body, bb, lenc, end2):
+                    ok_end = True
             if not ok_end and facts is not None and start is None and known_ge_at_callers(facts, body, lenc, end):
                 ok_end = True       # `window.slice()[..samples]` in a helper whose callers pass samples <= window.len()
             if start is None:
